@@ -6,7 +6,7 @@ pid, wt = sys.argv[1], sys.argv[2]
 p = [json.loads(l) for l in open('/verif/properties.jsonl') if json.loads(l)['id'] == pid][0]
 print(f"""You are helping to evaluate a verification framework for a Rust project (an analytical SQL engine on Arrow, crate `query_engine`). Your job is to play the role of a developer who introduces a subtle bug.
 
-You have your own scratch git worktree of the project at {wt} (work ONLY inside it; never touch /repo or /verif, and do not read anything under /verif). There is no network. To avoid a cold build first run: cp -a /repo/target {wt}/target   (then always build/test inside {wt} with --offline).
+You have your own scratch git worktree of the project at {wt} (work ONLY inside it; never touch /repo or /verif, and do not read anything under /verif). There is no network and DISK SPACE IS TIGHT: do NOT copy /repo/target; instead export CARGO_TARGET_DIR=/tmp/agents-target for every cargo command (a build directory shared with other agents -- cargo may wait for its lock, that is fine) and always pass --offline. Keep command output short (pipe long test output through tail/grep).
 
 Here is a semantic property the project is supposed to satisfy:
 
@@ -19,7 +19,7 @@ Here is a semantic property the project is supposed to satisfy:
 
 TASK: produce TWO independent, realistic source changes (mutations) to the project, each of which BREAKS this property while
   (a) still compiling,
-  (b) still passing the project's existing test suite unchanged (run at least `cargo test --offline --lib` and the integration tests that touch the code you changed; ideally `cargo test --workspace --no-fail-fast --offline`), and
+  (b) still passing the project's existing test suite unchanged: run `cargo test --offline --lib --no-fail-fast` and the integration test targets under tests/ that touch the code you changed, on the unchanged tree AND with your change, and compare per-test outcomes (about 36 lib tests and several integration targets fail on the unchanged tree only because the data/ fixtures are absent -- that is expected, do not try to fix it; do not run the whole workspace suite, it is slow), and
   (c) needing something SPECIFIC to manifest -- an unusual input or boundary value, a particular interleaving, a multi-step sequence, or two cooperating sites that each look fine alone -- NOT something ordinary use would expose at once.
 Make them the kind of plausible slip or "optimisation" a real developer could commit (off-by-one at a boundary, wrong operator in one arm, a dropped check, a changed rounding/cast, a reordered update, a relaxed memory/ordering/condition, ...). The two changes must be at different places / of different kinds. Each change should be small (a few lines).
 
